@@ -3,6 +3,27 @@ import os, re, sys
 from vlib import common as C
 from vlib.simlib import SIM_WRAPS
 
+MANIFEST = {
+    "text": "Lean theorems over ALL histories (any sequence of application sends, datagram arrivals, DTLS and CoAP timer expiries, "
+            "disconnects, release, each with ANY answers of the TLS library) of a transcription M of libcoap's DTLS session gating "
+            "(coap_send_pdu gate, delay queue, coap_session_connected / disconnected_lkd / free, coap_dtls_send / receive / hello / "
+            "handle_timeout, do_gnutls_handshake, layer table, ClientHello pre-filter) with GnuTLS as an oracle: no handler call and no "
+            "PDU written before the oracle reported a completed handshake (no_handler_before_hsOk, nothing_queued_written_before_"
+            "established, client_life_gated, server_life_gated), every write of a DTLS session goes through coap_dtls_send "
+            "(no_cleartext_on_dtls_session), ESTABLISHED only after the oracle's success (failure_never_establishes), cleartext CoAP "
+            "at the DTLS endpoint creates no session and no output (cleartext_coap_at_dtls_endpoint_dropped); exact step theorems for "
+            "the failure path (one NACK per queued CON, queues empty), release and the in-order flush.  M is tied to the compiled code "
+            "by exact trace equality on scenarios run with the REAL GnuTLS on both sides (virtual clock for libcoap and GnuTLS, scripted "
+            "wire with loss/duplication, cleartext injection), the oracle's answers being observed through wrapped gnutls_* calls and "
+            "replayed into M; the property is also read off the implementation's own output and the wire is scanned for anything that is "
+            "not a DTLS record; the observed handshake verdict is judged against a credential specification S.",
+    "note": "Partial: the handshake and record protection are GnuTLS's (oracle; trusted to report success only when both sides accepted "
+            "the credentials).  'Exactly one NACK per queued CON' and 'delivered in order exactly once' are proved for the failure / "
+            "release / flush step exactly (_partial), not as whole-trace theorems; the python oracle checks them on every scenario.  TLS "
+            "over TCP: model of gate + layer table only, no differential run (datagram-only simulation core).  Trusted: Lean kernel (+ "
+            "propext, Classical.choice, Quot.sound), harness + wraps + oracle, the hand transcription M (checked on the scenarios run).",
+    "design_ref": "DESIGN.md §4 C19, design/C19.md",
+}
 LEAN_MODULES = ["CoapVerif.Props.C19"]
 NAMESPACE = "Coap.C19"
 REQUIRED_THEOREMS = ["no_handler_before_hsOk", "no_cleartext_on_dtls_session", "queued_con_one_nack_on_failure_partial",
